@@ -15,6 +15,13 @@ CHECKS = {
              "stream is parsed back by the same TLA+ parser inside TLC; canonical trees must agree. Exhaustive within the bound, "
              "which is the level the property (a product over operator triples) needs.",
         ref="6/C06", technique="TLA+ reference parser (PT_Expr) + TLC enumeration of trees + trace judging of real renderings (J_C06)"),
+    "C18": dict(
+        text="TLC proves on the specification that the intended encoder round-trips through the field-layout decoder for every 7-tuple "
+             "over the digit-pattern set (either sign of the leading component, quarters, weeks, both templates); the same tuples plus "
+             "seeded multi-digit ones go through the real Interval.get_sql under six contexts and TLC decodes the emitted characters "
+             "with the same decoder and compares with the constructor arguments. Exhaustive over the digit-pattern product, which is "
+             "the input dimension the trimming regex is sensitive to.",
+        ref="6/C18", technique="TLA+ encoder/decoder pair (PT_Interval) model-checked for round trip; TLC decodes real literals (J_C18)"),
 }
 
 
